@@ -4,7 +4,10 @@
 Workload: the real CLI with SQLite file dev databases. Every command that takes --dev-url (migrate diff /
 validate / lint, schema apply / diff / inspect) x {SQL schema files, migration directories, HCL} x a failing
 statement inserted at every position of the replayed source (syntax error, duplicate object, NOT NULL /
-UNIQUE / CHECK failure after successful DDL and DML, missing object, FK failure with ?_fk=1) or none x
+UNIQUE / CHECK failure after successful DDL and DML, missing object, FK failure with ?_fk=1; explicit
+BEGIN / COMMIT / ROLLBACK / SAVEPOINT shapes: failing inside an open transaction, ending with an open
+transaction, balanced, COMMIT without BEGIN) or none, plus failures AFTER a fully successful replay
+(invalid --exclude glob, --format template error, unwritable new migration file, plan failing on the target) x
 dev start states {missing, empty file, empty db, tables+rows, empty table, view only, view+trigger,
 table+index+trigger, revisions table only, libsql_* table, sqlite_sequence only, orphan index row, WAL}.
 
@@ -68,7 +71,7 @@ def build_cases():
     def add(cmd, dev, stname, fail=None, **kw):
         n = len(L.story(stname, ""))
         c = {"cmd": cmd, "dev": dev, "story": stname, "sfx": sfx, "fail": fail,
-             "cuts": kw.pop("cuts", None) or mk_cuts(rng, n + 4), "txnone": False, "fk": False, "sum": "valid", "ckpt": False}
+             "cuts": kw.pop("cuts", None) or mk_cuts(rng, n + 4), "txnone": False, "fk": False, "sum": "valid", "ckpt": False, "late": None}
         c.update(kw)
         c["id"] = len(cases)
         cases.append(c)
@@ -137,6 +140,33 @@ def build_cases():
     for cmd in L.HCL_CMDS:
         for dev in L.EMPTY_STATES:
             add(cmd, dev, "C", None)
+    # ---- family 4: explicit BEGIN / COMMIT / ROLLBACK / SAVEPOINT inside the replayed source ----
+    rng = ctx.rand("c14", "cases-tx")
+    txk = list(L.TX_KINDS)
+    for ci, cmd in enumerate(L.SQL_CMDS):
+        for si, slot in enumerate(L.CMDS[cmd]["slots"]):
+            for stname in (["B", "C"] if not ctx.quick() else [L.STORIES[(ci + si + ctx.seed) % len(L.STORIES)]]):
+                n = slot_len(cmd, slot, stname)
+                if ctx.quick():
+                    # one shape that leaves a transaction open after something was committed, one arbitrary
+                    picks = [(rng.randrange(1, n + 1), L.TX_OPEN_KINDS[(ci + si + ctx.seed) % len(L.TX_OPEN_KINDS)]),
+                             (rng.randrange(n + 1), txk[rng.randrange(len(txk))])]
+                else:
+                    picks = [(pos, k) for pos in range(n + 1) for k in txk]
+                for pos, kind in picks:
+                    add(cmd, L.EMPTY_STATES[ei % 3], stname, {"slot": slot, "pos": pos, "kind": kind},
+                        txnone=(not ctx.quick() and slot == "dir" and pos % 3 == 2))
+                    ei += 1
+    # ---- family 5: every statement of the replay succeeds, the command fails afterwards ----
+    for ci, cmd in enumerate(L.SQL_CMDS):
+        fam = L.CMDS[cmd]["family"]
+        for late, fams in L.LATE_KINDS.items():
+            if fam not in fams or (late == "bad-name" and cmd == "diff-sql-synced"):
+                continue
+            for stname in (L.STORIES if not ctx.quick() else [L.STORIES[(ci + ctx.seed) % len(L.STORIES)]]):
+                for dev in (L.EMPTY_STATES if not ctx.quick() else [L.EMPTY_STATES[ei % 3]]):
+                    add(cmd, dev, stname, None, late=late)
+                ei += 1
     return cases
 
 
@@ -211,6 +241,8 @@ def materialise(c, d):
     os.makedirs(os.path.dirname(target), exist_ok=True)
     if cmd == "sdiff-db-sql":
         L._mk(target, "CREATE TABLE tgt (id integer primary key);")
+    if c.get("late") == "target-conflict":
+        L._mk(target, "CREATE VIEW %s AS SELECT 1 AS one;" % L.first_table(c["story"], c["sfx"]))
     return src, dev, target, info
 
 
@@ -229,7 +261,7 @@ def run_case(c, verbose=False):
     devcls, _, strict_sha = L.DEV_STATES[c["dev"]]
     before, dir_before = L.observe(dev), dump_dir(src)
     url = "sqlite://" + dev + ("?_fk=1" if c["fk"] else "")
-    args = L.argv(cmd, src, url, target)
+    args = L.argv(cmd, src, url, target, c.get("late"))
     rc, out, err = ctx.atlas_run(args, d)
     with ctx.lock:
         _runs[0] += 1
@@ -238,6 +270,8 @@ def run_case(c, verbose=False):
     nslot = len(L.story(c["story"], "")) + 1
     pc = L.pos_class(c["fail"], slot_len(cmd, c["fail"]["slot"], c["story"]) if c["fail"] else nslot)
     kind = c["fail"]["kind"] if c["fail"] else "none"
+    if c.get("late"):
+        pc = "after-replay:" + c["late"]
     events = {"argv": args, "rc": rc, "outcome": oc, "stderr": err[-600:], "stdout": out[-300:],
               "dev_before": {k: before[k] for k in ("exists", "sha", "size", "side", "master", "integrity")},
               "dev_after": {k: after[k] for k in ("exists", "sha", "size", "side", "master", "integrity")},
@@ -264,8 +298,14 @@ def run_case(c, verbose=False):
     if devcls == "empty":
         left = after["master"]
         if after["exists"] and left:
-            v("C14|dev-left-nonempty|%s|%s" % (fam, "after-success" if rc == 0 else "after-failure"),
-              "%s on an empty dev database (%s) exited %d and left %s in it" % (cmd, c["dev"], rc, [m[:2] for m in left][:6]))
+            if c["fail"] and c["fail"]["kind"] in L.TX_OPEN_KINDS:
+                # class: the replayed source left a transaction open on the dev connection, the clean-up ran inside it
+                v("C14|open-transaction-at-restore",
+                  "%s: the replayed source leaves a transaction open (%s); the clean-up runs inside it (VACUUM fails: %s, its DELETE is rolled back "
+                  "when the connection closes) and what was committed before stays in the dev database: %s (exit %d)" % (cmd, c["fail"]["kind"], "reported" if "cannot VACUUM" in (err + out) else "error swallowed", [m[:2] for m in left][:6], rc))
+            else:
+                v("C14|dev-left-nonempty|%s|%s" % (fam, "after-success" if rc == 0 else "after-failure"),
+                  "%s on an empty dev database (%s) exited %d and left %s in it" % (cmd, c["dev"], rc, [m[:2] for m in left][:6]))
         elif after["exists"] and after["integrity"] != ["ok"]:
             v("C14|dev-left-corrupt|%s" % fam, "%s left a dev database failing integrity_check: %s" % (cmd, after["integrity"]))
         else:
@@ -329,8 +369,15 @@ def run_case(c, verbose=False):
         ctx.count("dir:" + ("new-migration+sum" if dd["added"] else "byte-identical"))
     # ---- evidence ----
     if c["fail"] and devcls == "empty" and c["sum"] == "valid":
-        ctx.count("injected-failure:" + ("reached(exit!=0)" if rc != 0 else "not-reached(exit0)"))
+        if L.kind_fails(kind):
+            ctx.count("injected-failure:" + ("reached(exit!=0)" if rc != 0 else "not-reached(exit0)"))
+        else:
+            ctx.count("non-failing-tx-shape:" + ("exit0" if rc == 0 else "exit!=0"))
         ctx.count("fail-kind:" + kind)
+    if c.get("late"):
+        ctx.count("late-failure:%s:%s" % (c["late"], "reached(exit!=0)" if rc != 0 else "not-reached(exit0)"))
+        if rc != 0:
+            ctx.count("late-failure-reached")
     if info.get("lint_fail_in"):
         ctx.count("lint-failure-in:" + info["lint_fail_in"])
     for flag in ("txnone", "fk", "ckpt"):
@@ -342,13 +389,13 @@ def run_case(c, verbose=False):
     ctx.count("cmd:" + cmd)
     bump_matrix(cmd, c["dev"], pc)
     first_err = norm_msg((err.strip().splitlines() or [""])[0])
-    ctx.eval(digest(cmd, c["dev"], kind, pc, oc, first_err, [m[:2] for m in after["master"]], dd), True)
+    ctx.eval(digest(cmd, c["dev"], kind, pc, c.get("late"), oc, first_err, [m[:2] for m in after["master"]], dd), True)
     skey = devcls + "/" + oc
     with ctx.lock:
         take = skey in _want_samples and not viol
         _want_samples.discard(skey) if take else None
     if take:
-        ctx.sample({"cmd": " ".join(args[:2]), "case": {k: c.get(k) for k in ("cmd", "dev", "story", "fail", "txnone", "fk", "sum", "ckpt")},
+        ctx.sample({"cmd": " ".join(args[:2]), "case": {k: c.get(k) for k in ("cmd", "dev", "story", "fail", "txnone", "fk", "sum", "ckpt", "late")},
                     "rc": rc, "outcome": oc, "stderr": norm_msg(err), "dev_before": [m[:2] for m in before["master"]],
                     "dev_after": [m[:2] for m in after["master"]], "dev_bytes_identical": same_bytes, "dir_delta": dd}, cap=6)
     return bool(viol)
@@ -364,7 +411,7 @@ def main():
     # spread the expensive / cheap cases evenly over the workers, deterministically
     ctx.par(cases, run_case)
     cnt = ctx.counters
-    need = ["outcome:ok", "outcome:refused-not-clean", "outcome:statement-error", "dev-class:empty", "dev-class:nonempty"]
+    need = ["outcome:ok", "outcome:refused-not-clean", "outcome:statement-error", "dev-class:empty", "dev-class:nonempty", "late-failure-reached"]
     missing = [k for k in need if not cnt.get(k)]
     reached, notreached = cnt.get("injected-failure:reached(exit!=0)", 0), cnt.get("injected-failure:not-reached(exit0)", 0)
     ctx.finish("dev file dumped by python sqlite3 + sha256 + source dir hashes around every CLI call: non-empty dev => refused "
